@@ -193,8 +193,9 @@ Definition d21_here (_ : bool) (x : expr) : bool :=
 Definition known_d21 (sw : switches) (dt : detection) : bool :=
   sw_matrix sw && any_tree d21_here (pre_matrix sw dt).
 
-(* D29 (optimiser.rs:789-801): in an or-group nested blocks on the same field are merged into
-   ONE nested block over the or of their bodies; over an ARRAY of objects a body that is an
+(* D29 (optimiser.rs:642-657, :789-801): in an or-group (and likewise in an and-group) nested
+   blocks on the same field are merged into ONE nested block over the or (the all-of-or) of
+   their bodies; over an ARRAY of objects a body that is an
    all()-list has per-member semantics ("each member is satisfied by some element") on its
    own, but inside the merged or it is evaluated per element ("some element satisfies every
    member"): a match is lost, with no negation involved *)
@@ -205,7 +206,7 @@ Definition is_allor (e : expr) : bool :=
   end.
 Definition d29_here (_ : bool) (x : expr) : bool :=
   match x with
-  | EGroup BOr l =>
+  | EGroup BOr l | EGroup BAnd l =>
       let sh := map (fun m => shake1 ord (shake_fuel m) m) l in
       let nested := flat_map (fun m => match m with ENested f b => [(f, b)] | _ => [] end) sh in
       existsb (fun p : str * expr =>
